@@ -1,9 +1,11 @@
 package engines
 
 import (
+	"fmt"
 	"go/token"
 	"go/types"
 	"reflect"
+	"sort"
 	"strings"
 
 	"bngvet/internal/flow"
@@ -420,5 +422,91 @@ func c10StablePoolIndex(c *Ctx) {
 	}
 	if n == 0 {
 		r.Check("C10.N7.stablePoolIndex", "pkg/nat", "stores to Manager.pool found", "-", false, "no store to Manager.pool")
+	}
+}
+
+// c11MatchIdOwner (rule C11.I10): the identifier that Configure-Ack/Nak/Reject are matched against is rewritten only
+// when a Configure-Request is originated.
+func c11MatchIdOwner(c *Ctx) {
+	r := c.R
+	r.Rule("C11.I10.matchIdOnlyOnRequest", "the field holding 'the identifier of our last Configure-Request' (lastIdentifier) is written only by code that originates a Configure-Request: no function that originates another kind of packet (Terminate-Request, Code/Protocol-Reject, Echo-Request, replies) reaches a write of it", 3)
+	sp := c.P.SSAPkg("pkg/pppoe")
+	if sp == nil {
+		return
+	}
+	var funcs []*ssa.Function
+	for _, f := range c.moduleFuncs() {
+		if f.Pkg == sp && f.Signature.Recv() != nil {
+			funcs = append(funcs, f)
+		}
+	}
+	writes := map[*ssa.Function]bool{}
+	codes := map[*ssa.Function]map[int64]bool{}
+	for _, f := range funcs {
+		flow.Instrs(f, func(in ssa.Instruction) {
+			st, ok := in.(*ssa.Store)
+			if !ok {
+				return
+			}
+			fo := flow.FieldOwner(st.Addr)
+			if strings.HasSuffix(fo, ".lastIdentifier") {
+				writes[f] = true
+			}
+			if strings.HasSuffix(fo, "LCPPacket.Code") {
+				if k, ok := constInt(st.Val); ok {
+					if codes[f] == nil {
+						codes[f] = map[int64]bool{}
+					}
+					codes[f][k] = true
+				}
+			}
+		})
+	}
+	memo := map[*ssa.Function]int{}
+	var reach func(f *ssa.Function) bool
+	reach = func(f *ssa.Function) bool {
+		if v, ok := memo[f]; ok {
+			return v == 1
+		}
+		memo[f] = 0
+		res := writes[f]
+		if !res {
+			for _, call := range flow.Calls(f) {
+				if _, isGo := call.(*ssa.Go); isGo {
+					continue
+				}
+				if g := call.Common().StaticCallee(); g != nil && g.Pkg == sp && g != f && flow.RecvTypeName(g) == flow.RecvTypeName(f) && reach(g) {
+					res = true
+					break
+				}
+			}
+		}
+		if res {
+			memo[f] = 1
+		}
+		return res
+	}
+	n := 0
+	for _, f := range funcs {
+		cs := codes[f]
+		if len(cs) == 0 || cs[1] {
+			continue
+		}
+		n++
+		var ks []string
+		for k := range cs {
+			ks = append(ks, fmt.Sprint(k))
+		}
+		sort.Strings(ks)
+		r.Check("C11.I10.matchIdOnlyOnRequest", load.ShortFunc(f), "originates code "+strings.Join(ks, "/")+" without rewriting lastIdentifier", c.P.Pos(f.Pos()), !reach(f),
+			"originating this packet also overwrites the identifier that Configure-Ack/Nak/Reject are matched against: an acknowledgement carrying this packet's identifier is then accepted as the answer to our Configure-Request (the automaton opens on it) and the genuine one is discarded as stale")
+	}
+	nw := 0
+	for range writes {
+		nw++
+	}
+	r.Count("lastIdentifier_writers", nw)
+	if n == 0 || nw == 0 {
+		r.Check("C11.I10.matchIdOnlyOnRequest", "pkg/pppoe", "packet originators and writers of lastIdentifier found", "-", false, "anchors not found")
 	}
 }
